@@ -156,6 +156,8 @@ def run(ctx):
     ctx.check(ok, "CONST", f"{fp.qualname} / CONST / pressures[int(token 0)] = float(token 7) of the same line", ctx.where(fp), "token 0 -> token 7",
               "the body record is no longer read as id = token 0, multiplier = token 7")
 
+    fl = repo.func(f"{SE}.calculate_first_last")
+    ctx.touch(fl)
     # ================================================================== reader: create_lattice
     cl = repo.func(f"{SE}.create_lattice")
     ctx.touch(cl)
@@ -183,12 +185,37 @@ def run(ctx):
               "mesh edges do not join vertices[id1] and vertices[id2] of their own record")
     gts = [e for e in sc.stores("gt")]
     ok = False
+    how = "?"
     for e in gts:
         v = e.value
-        if v[0] == "call" and v[1] == "round" and len(v[2]) == 2 and v[2][1] == T.num(4) and any(x == ("str", "force") for x in T.subterms(v[2][0])):
-            ok = True
-    ctx.check(ok, "CONST", f"{cl.qualname} / CONST / reference tension = round(density, 4)", ctx.where(cl), "4 digits on the 'force' column",
-              "the reference tension is not the 'force' column rounded to four decimals")
+        lp = e.loops()
+        if not (v[0] == "call" and v[1] == "round" and len(v[2]) == 2 and v[2][1] == T.num(4) and lp):
+            continue
+        r = T.idx(("bv", lp[-1][1]), T.num(1))
+        X = v[2][0]
+        how = T.show(T.alpha(X))[:160]
+        E = T.call(f"{SE}.get_edges", (SELF,))
+        rid = T.call("int", (T.attr(r, "id"),))
+        by_id = [T.idx(T.attr(T.idx(T.idx(T.attr(E, "loc"), c), ("str", "force")), "iloc"), T.num(0))
+                 for c in (T.cmp("Eq", T.idx(E, ("str", "id")), rid), T.cmp("Eq", T.attr(E, "id"), rid), T.cmp("Eq", T.idx(E, ("str", "id")), T.attr(r, "id")))]
+        own = [T.attr(r, "force"), T.idx(r, ("str", "force"))]
+        ok = X in by_id or X in own
+    ctx.check(ok, "CONST", f"{cl.qualname} / CONST / reference tension = round(density of the edge's own record, 4)", ctx.where(cl),
+              "4 digits; the density is the one of the row with the same id (or of the row itself)",
+              f"the reference tension is round({how}, 4): not the density recorded for this edge's own id (ids need not be 1..n)")
+
+    ctx.clause("parsing a dump does not depend on what was parsed before (no module-level or class-level cache)")
+    shared = rules.module_level_mutated(repo, "forsys.surface_evolver")
+    for name, fq, st_ in shared:
+        ctx.violation("STATE", f"{fq.qualname} / STATE / module-level container `{name}` mutated", ctx.where(fq, st_["node"]),
+                      f"`{fq.module.line(st_['node'].lineno)}` writes into a module-level container: what one parse stored (keyed by a path that can be rewritten) is reused by the next")
+    if not shared:
+        ctx.ok("STATE", "forsys.surface_evolver / STATE / no module-level mutable state", "forsys/surface_evolver.py", "0 module-level containers mutated")
+    idx_attrs = {"index_v", "index_e", "index_f", "index_pressures"}
+    wr = [(fq, st_) for a_ in idx_attrs for fq, st_ in repo.writers_of(a_)]
+    okw = bool(wr) and all(fq.qualname == f"{SE}.calculate_first_last" and isinstance(st_["recv"], ast.Name) and st_["recv"].id == "self" for fq, st_ in wr)
+    ctx.check(okw, "WHO", f"{SE} / WHO / section boundaries are per-instance attributes written by calculate_first_last only", ctx.where(fl),
+              "self.index_* set once per object", "the section boundaries are no longer per-object attributes written only by calculate_first_last")
     cs = [e for e in sc.stores() if e.sub and e.value[0] == "call" and e.value[1] == "new:forsys.cell.Cell"]
     ctx.clause("a cell's vertex cycle follows the face's signed edge loop (tail vertex of each signed edge)")
     ok = okp = False
@@ -255,8 +282,6 @@ def run(ctx):
               "len(v.ownCells) == 0 -> delete incident edges, delete vertex", "orphan vertices (no cell) are no longer removed")
 
     ctx.clause("section boundaries come from the five literal markers")
-    fl = repo.func(f"{SE}.calculate_first_last")
-    ctx.touch(fl)
     lits = sorted({c.args[0].value for c in repo.calls_in(fl) if isinstance(c.func, ast.Attribute) and c.func.attr == "startswith"
                    and c.args and isinstance(c.args[0], ast.Constant)})
     ctx.check(lits == sorted(["vertices  ", "edges  ", "faces  ", "bodies  ", "read"]), "CONST", f"{fl.qualname} / CONST / section markers", ctx.where(fl),
@@ -291,6 +316,8 @@ def _test_guards(test, k, len_guard):
 
 _P, _F = "forsys/surface_evolver.py", "forsys/frames.py"
 PINNED = [
+    ("density looked up by position (id - 1)", _P, "round(edges_temp.loc[edges_temp['id'] == int(r.id)]['force'].iloc[0], 4)", "round(edges_temp['force'].get(int(r.id) - 1, 1), 4)"),
+    ("section ranges cached in a module-level dict", _P, "@dataclass\nclass SurfaceEvolver:", "_section_index = {}\n\n\n@dataclass\nclass SurfaceEvolver:\n    def _remember(self):\n        _section_index[self.fname] = True\n"),
     ("single-line face reads its own id as an edge", _P, "                        current_edge = current_edge+splitted[1:-2]", "                        current_edge = current_edge+splitted[0:-2]"),
     ("continuation line drops its first edge", _P, "                    current_edge = current_edge+splitted[0:-1]", "                    current_edge = current_edge+splitted[1:-1]"),
     ("closing comment only partly stripped", _P, "                        current_edge = current_edge+splitted[0:-2]", "                        current_edge = current_edge+splitted[0:-1]"),
@@ -312,6 +339,7 @@ PINNED = [
     ("interface reference = max of mesh edges", _F, "                big_edge.gt = np.mean(objects)", "                big_edge.gt = np.max(objects)"),
 ]
 PRESERVING = [
+    ("density taken from the row itself", _P, "round(edges_temp.loc[edges_temp['id'] == int(r.id)]['force'].iloc[0], 4)", "round(r.force, 4)"),
     ("tokens split once for the vertex record", _P, "                xs.append(round(float(lines[i].split()[1]), 3))\n                ys.append(round(float(lines[i].split()[2]), 3))",
      "                parts = lines[i].split()\n                xs.append(round(float(parts[1]), 3))\n                ys.append(round(float(parts[2]), 3))"),
     ("length guard spelled >= 5", _P, "if len(tokens) > 4 and tokens[3] == \"density\" else 1", "if len(tokens) >= 5 and tokens[3] == \"density\" else 1"),
